@@ -8,6 +8,7 @@ package main
 // is only a candidate (the full quantified query is then also tried, and counterexamples are replayed).
 
 import (
+	"fmt"
 	"math/big"
 	"strings"
 )
@@ -182,11 +183,28 @@ func containsBound(t *Term, memo map[*Term]bool) bool {
 type groundIdx struct {
 	byRoot map[*Term][]*Term
 	bySort map[*Sort][]*Term
+	byTag  map[string][]*Term // region terms c with a fact (= (rtype c) TAG) somewhere in the query, keyed by TAG
+}
+
+// rtypeFact: t is (= (rtype c) TAG) (either orientation): returns c and TAG.
+func rtypeFact(t *Term) (*Term, *Term) {
+	if t.Op != "=" || len(t.Args) != 2 {
+		return nil, nil
+	}
+	a, b := t.Args[0], t.Args[1]
+	if b.Op == "app" && b.Name == "rtype" {
+		a, b = b, a
+	}
+	if a.Op == "app" && a.Name == "rtype" && len(a.Args) == 1 && b.Op == "bv" {
+		return a.Args[0], b
+	}
+	return nil, nil
 }
 
 func groundIndexTerms(asserts []*Term) *groundIdx {
-	out := &groundIdx{byRoot: map[*Term][]*Term{}, bySort: map[*Sort][]*Term{}}
+	out := &groundIdx{byRoot: map[*Term][]*Term{}, bySort: map[*Sort][]*Term{}, byTag: map[string][]*Term{}}
 	seen := map[*Term]bool{}
+	haveT := map[string]bool{}
 	type hk struct {
 		t *Term
 		s *Sort
@@ -203,6 +221,13 @@ func groundIndexTerms(asserts []*Term) *groundIdx {
 			return
 		}
 		seen[t] = true
+		if c, tag := rtypeFact(t); c != nil && !containsBound(c, bm) {
+			k := tag.Val.String()
+			if !haveT[k+"|"+fmt.Sprint(c.id)] {
+				haveT[k+"|"+fmt.Sprint(c.id)] = true
+				out.byTag[k] = append(out.byTag[k], c)
+			}
+		}
 		if (t.Op == "select" || t.Op == "store") && len(t.Args) >= 2 {
 			ix := t.Args[1]
 			if !containsBound(ix, bm) && !containsBound(t.Args[0], bm) {
@@ -274,6 +299,13 @@ func (f *TF) instantiate(t *Term, pos bool, qm map[*Term]bool, ground *groundIdx
 		}
 		for _, sk := range skolems {
 			add(sk)
+		}
+		// a frame guarded by the region's type: only regions known to have that type can use it
+		if tag := guardTag(body, b); tag != nil {
+			for _, c := range ground.byTag[tag.Val.String()] {
+				add(c)
+			}
+			pats = nil
 		}
 		// first pass: indices used on arrays with the same root as the pattern's array; second pass: same array sort
 		for pass := 0; pass < 2; pass++ {
@@ -468,4 +500,27 @@ func freeBoundVars(t *Term) bool {
 		return false
 	}
 	return rec(t, map[*Term]bool{})
+}
+
+// guardTag: body is (or (not (and ... (= (rtype b) TAG) ...)) ...): the TAG, else nil.
+func guardTag(body, b *Term) *Term {
+	if body.Op != "or" {
+		return nil
+	}
+	for _, a := range body.Args {
+		if a.Op != "not" {
+			continue
+		}
+		g := a.Args[0]
+		cs := []*Term{g}
+		if g.Op == "and" {
+			cs = g.Args
+		}
+		for _, c := range cs {
+			if x, tag := rtypeFact(c); x == b {
+				return tag
+			}
+		}
+	}
+	return nil
 }
